@@ -78,6 +78,31 @@ pub mod nullcrypto {
         }
     }
 
+    /// Stand-in for an AEAD with a recognisable key: a payload authenticates iff its last byte is the key's tag.
+    pub struct TagPacketKey(pub u8);
+    impl PacketKey for TagPacketKey {
+        fn encrypt(&self, _: u64, _: &mut [u8], _: usize) {}
+        fn decrypt(&self, _: u64, _: &[u8], payload: &mut BytesMut) -> Result<(), CryptoError> {
+            if payload.last() == Some(&self.0) { Ok(()) } else { Err(CryptoError) }
+        }
+        fn tag_len(&self) -> usize {
+            0
+        }
+        fn confidentiality_limit(&self) -> u64 {
+            u64::MAX
+        }
+        fn integrity_limit(&self) -> u64 {
+            u64::MAX
+        }
+    }
+
+    pub fn tagged_keys(tag: u8) -> Keys {
+        Keys {
+            header: KeyPair { local: Box::new(NullHeaderKey), remote: Box::new(NullHeaderKey) },
+            packet: KeyPair { local: Box::new(TagPacketKey(tag)), remote: Box::new(TagPacketKey(tag)) },
+        }
+    }
+
     pub fn keys() -> Keys {
         Keys {
             header: KeyPair { local: Box::new(NullHeaderKey), remote: Box::new(NullHeaderKey) },
@@ -856,5 +881,46 @@ pub fn keep_alive_idle_native(_x: u8) -> u32 {
     }
     assert!(conn.state.is_closed(), "a silent peer was never timed out");
     assert!(t <= deadline + Duration::from_millis(100));
+    1
+}
+
+/// Demonstration / replay body for the E2 slice query `e2_off_path_response_slice` (C07): an established
+/// server whose peer may migrate receives `n` tiny (22-byte) authentic datagrams carrying a PATH_CHALLENGE
+/// from an address that is NOT the connection's path.  Whatever it sends to that address must stay within
+/// three times what came from there (plus the completion of one datagram).
+pub fn off_path_challenge_native(n: u8) -> u32 {
+    let mut conn = mk_conn(true, true);
+    conn.state = State::Established;
+    conn.path.validated = true;
+    conn.spaces[SpaceId::Data].crypto = Some(nullcrypto::tagged_keys(0));
+    conn.highest_space = SpaceId::Data;
+    conn.spaces[SpaceId::Initial].crypto = None;
+    conn.spaces[SpaceId::Handshake].crypto = None;
+    conn.path.mtud = mtud::mk_disabled();
+    let now = crate::verif::mk_instant(51, 0).unwrap();
+    let victim = addr(66, 7777);
+    let (mut received, mut sent) = (0usize, 0usize);
+    let mut buf = Vec::with_capacity(4096);
+    for i in 0..n {
+        let mut v = vec![0x40u8, 2, 2, 2, 2, 2, 2, 2, 2, i + 1, 0x1a, 9, 9, 9, 9, 9, 9, 9, i];
+        v.extend_from_slice(&[0, 0, 0]); // PADDING frames; the last byte is also what the stand-in AEAD checks (tag 0)
+        let bytes = BytesMut::from(&v[..]);
+        let (first_decode, remaining) = PartialDecode::new(bytes, &FixedLengthConnectionIdParser::new(8), &[1], true).ok().expect("decodes");
+        conn.handle_event(ConnectionEvent(ConnectionEventInner::Datagram(DatagramConnectionEvent { now, remote: victim, ecn: None, first_decode, remaining })));
+        received += v.len();
+        for _ in 0..8 {
+            match conn.poll_transmit(now, 1, &mut buf) {
+                Some(t) => {
+                    if t.destination == victim {
+                        sent += t.size;
+                    }
+                    buf.clear();
+                }
+                None => break,
+            }
+        }
+    }
+    assert!(conn.path.remote == addr(1, 4433), "a probing packet must not move the connection");
+    assert!(sent <= 3 * received + 1200, "{} bytes sent to an off-path address that sent {} bytes", sent, received);
     1
 }
